@@ -31,9 +31,10 @@ fn check_one(st: &mut Stats, text: &str, pos: usize, file: Option<&str>, colors:
     if line > 1 || col > 1 {
         st.nontrivial += 1;
     }
-    let fields = |actual: String| json!({"text": text, "position": pos, "file": file, "colors": colors,
-        "input": format!("{:?}@{}", text, pos),
-        "expected": format!("location {loc:?}, line {the_line:?}, caret line {caret:?}"), "actual": actual});
+    let shown: String = if text.len() > 300 { format!("{}...({} bytes)", text.chars().take(40).collect::<String>(), text.len()) } else { text.to_string() };
+    let fields = |actual: String| json!({"text": shown, "position": pos, "file": file, "colors": colors,
+        "input": format!("{:?}@{}", shown, pos),
+        "expected": format!("location {loc:?}, line of {} chars, caret under column {col}", the_line.chars().count()), "actual": actual.chars().take(400).collect::<String>()});
     match r {
         Err(p) => st.violation("C11", "panic", fields(format!("panic: {}", panic_message(p)))),
         Ok(s) => {
@@ -86,6 +87,25 @@ pub fn run(tier: Tier) {
                 if t.is_char_boundary(pos) {
                     pairs += 1;
                     check_one(&mut st, &t, pos, Some("f"), false);
+                }
+            }
+        }
+    }
+    // very long lines: columns around 2^16 (format width limits), selected positions only (each call is O(len))
+    for n in [65_534usize, 65_535, 65_536, 65_537, 70_000, 200_000] {
+        for unit in ["a", "é"] {
+            let line: String = unit.repeat(n);
+            for t in [line.clone(), format!("x\n{line}\ny")] {
+                let start = t.find(unit).unwrap();
+                let w = unit.len();
+                for col in [0usize, 1, 65_533, 65_534, 65_535, 65_536, 65_537, n - 1, n] {
+                    if col > n {
+                        continue;
+                    }
+                    let pos = start + col * w;
+                    pairs += 1;
+                    check_one(&mut st, &t, pos, None, false);
+                    st.bump("very_long_line_pairs", 1);
                 }
             }
         }
